@@ -13,7 +13,7 @@ DEFAULT_WEIGHTS = {
     'wait': 10, 'setflag': 5, 'settracked': 5, 'lock': 4, 'put': 4, 'get': 3, 'iter': 2,
     'close': 1, 'borrow': 4, 'resource': 2, 'transfer': 3, 'scope': 6, 'until': 6,
     'spawn': 2, 'cancel': 3, 'await_task': 3, 'raise': 1, 'ticker': 2, 'collect': 2,
-    'first': 2, 'guard': 1,
+    'first': 2, 'guard': 1, 'graceful': 1,
 }
 
 
@@ -71,7 +71,7 @@ class Gen:
         weights = dict(self.weights)
         if depth >= self.max_depth:
             for key in ('lock', 'borrow', 'scope', 'until', 'ticker', 'collect', 'first', 'iter',
-                        'guard'):
+                        'guard', 'graceful'):
                 weights[key] = 0
         if not self.tasks:
             weights['cancel'] = weights['await_task'] = 0
@@ -249,6 +249,14 @@ class Gen:
 
     def g_spawn(self, depth):
         return {'op': 'spawn', 'child': self.child(depth)}
+
+    def g_graceful(self, depth):
+        rng = self.rng
+        cleanup = [{'op': 'wait', 'n': {'k': 'delay', 'd': rng.choice([0.5, 1, 2])} if
+                    rng.random() < 0.7 else {'k': 'instant'}, 'id': self.next_id('s')}
+                   for _ in range(rng.randint(1, 2))]
+        return {'op': 'graceful', 'body': self.steps(depth + 1, rng.randint(1, 3)),
+                'cleanup': cleanup}
 
     def g_guard(self, depth):
         return {'op': 'guard', 'body': self.steps(depth + 1, self.rng.randint(1, 3)),
